@@ -323,8 +323,9 @@ def conclude(pid, tier, seed, m, wall):
             cov['extra_coverage_error'] = repr(e)
     ev = {'property_id': pid, 'tier': tier, 'seed': int(seed), 'level': mod.LEVEL, 'coverage': cov,
           'assumptions': list(mod.ASSUMPTIONS), 'wall_s': round(wall, 2), 'violations': len(new_by_key)}
-    os.makedirs(os.path.join(VERIF_ROOT, 'evidence'), exist_ok=True)
-    with open(os.path.join(VERIF_ROOT, 'evidence', f'{pid}.json'), 'w') as f:
+    evdir = os.environ.get('VERIF_EVIDENCE_DIR') or os.path.join(VERIF_ROOT, 'evidence')      # scratch runs against mutants write elsewhere
+    os.makedirs(evdir, exist_ok=True)
+    with open(os.path.join(evdir, f'{pid}.json'), 'w') as f:
         json.dump(ev, f, indent=1, sort_keys=False)
         f.write('\n')
 
